@@ -5,9 +5,11 @@
 //
 // in:  name, text, mode:
 //
-//	"ast"     parser.ResultFromAST result (the package's own implementation)
-//	"wrapped" the same result behind a foreign Result implementation (Clone re-creates it from the AST)
-//	"noast"   parser.ResultWithoutAST of the descriptor
+//	"ast"           parser.ResultFromAST result (the package's own implementation)
+//	"wrapped"       the same result behind a foreign Result implementation (Clone re-creates it from the AST)
+//	"noast"         parser.ResultWithoutAST of the descriptor
+//	"compile_noast" the descriptor is handed to protocompile.Compiler as
+//	                SearchResult{ParseResult: parser.ResultWithoutAST(fd)}; out: compile ok|error|panic, message
 //
 // out: elems [[path, kind, origAddr, cloneAddr, origNode, cloneNode, origExts, cloneExts]...]
 //
@@ -16,10 +18,8 @@
 //	addr       name of the Go pointer (first-seen order; original walked first)
 //	node       name of the AST node returned by Result.Node (-1 = nil; first-seen order)
 //	exts       for extension ranges: Result.ExtensionsNode (the enclosing extensions statement)
-//	node_kinds Go type and first/last token of every node name
 //
-// mode "compile_noast": the descriptor is handed to protocompile.Compiler as
-// SearchResult{ParseResult: parser.ResultWithoutAST(fd)}; out: compile ok|error|panic, message
+//	node_kinds Go type and first/last token of every node name
 //	typed      panics of the typed accessors on the clone ([[path, accessor, message]...])
 //	equal, bytes_equal      proto.Equal / deterministic bytes of clone vs original
 //	shared_ptrs             message pointers reachable from both descriptors
@@ -385,7 +385,7 @@ func cloneCase(in map[string]any) map[string]any {
 		"equal":       proto.Equal(orig.FileDescriptorProto(), clone.FileDescriptorProto()),
 		"bytes_equal": detBytes(clone.FileDescriptorProto()) == origBytes,
 		"shared_ptrs": shared, "cross_orig": crossOrig, "cross_clone": crossClone,
-		"same_ast": clone.AST() == orig.AST(),
+		"same_ast":    clone.AST() == orig.AST(),
 		"same_result": clone == orig,
 	}
 	if w.typed == nil {
